@@ -28,6 +28,21 @@ CHECKS = {
     note='floats as reals; Bmatrix/LAPACK, the optimiser and the hessian are outside; vary subsets: all 64 for one component, one Boolean-symbolic component x fixed patterns for the others when n>=2 (all 4096 for n=2 in thorough); sympy normaliser trusted, models replayed with central differences / explicit inverse on the real code.',
     technique='symbolic execution of the real Python source on z3 terms (units-aware trig algebra, exp atoms), automatic differentiation of the executed model term as oracle, sympy normalisation then z3 decides',
     design='4/C04'),
+ 'C02': dict(
+    text='The real find_islands (with PixelIsland.calc_bounding_box/set_mask) is executed on images whose every pixel value, the thresholds (0<flood<=seed) and the background/noise are solver variables; every pixel comparison forks, so per path the flood mask is concrete (real scipy label) while values stay symbolic. z3 decides on every feasible path: each reported island is one whole 8-connected flood group, kept iff one of its OWN pixels exceeds the seed, boxes tight and consistent with masks, islands disjoint, no blank member, scan order. Grids 1x1..3x3 complete (2x3 with all 1-2 blank patterns; thorough 3x3 with a blank, 3x4).',
+    note='floats as reals (threshold ties exact); grids above 3x4 are outside; monotonicity in the seed and "no component from a failing group" are corollaries of the kept<=>own-seed obligation; models are replayed on the real function against a flood-fill oracle.',
+    technique='symbolic execution of the real Python source on z3 terms (own executor), exhaustive path forking by re-execution, z3 decides each obligation; models replayed on real code',
+    design='4/C02'),
+ 'C11': dict(
+    text='The real find_islands(region=, wcs=) runs on symbolic pixel values with the WCS (pixel->sky, any origin) and the region membership as UNINTERPRETED functions: z3 decides on every path that an island is kept iff some own pixel (row r, col c) has Inside(W_fits(c+1, r+1)), that kept islands are identical (box, mask, order) to the unrestricted run, and that degrees are handed over. Holding for every interpretation covers every WCS, region and depth. A syntactic scan confirms the fitting functions never read the region.',
+    note='wcslib/HEALPix run for real only in the replay (TAN header, depth-14 region built from the model\'s inside-pixels); equality of fitted values follows from island identity plus the scan, the optimiser is not encoded; grids up to 2x3/3x2/1x4 (thorough 3x3, 2x4).',
+    technique='symbolic execution of the real Python source with uninterpreted-function stubs (z3 EUF+LRA), path forking by re-execution; models replayed with real astropy WCS and a real Region',
+    design='4/C11'),
+ 'C13': dict(
+    text='Three kernels: (a) relational symbolic execution of the real find_islands on (im,bkg) and (-im,-bkg) with shared symbolic pixels: identical islands on every path; (b) the polarity-filter test sliced from find_sources_in_image on a symbolic peak flux: positive-only / negative-only catalogues are disjoint, of the requested sign, and together equal the both-polarities catalogue; (c) the isnegative / summit-selector / peak / amplitude-bound statements sliced from estimate_lmfit_parinfo, run relationally on (data,curve) and (-data,-curve): selections mirror for single-sign islands, peak pixel identical, bounds(-amp) = -bounds(amp) swapped. Mixed-sign islands are asymmetric: recorded as an open known finding.',
+    note='equality of fitted values/errors/flags between the two runs needs the optimiser and is not decided; selector kernel: 3x3 island with 2 symbolic pixels; slices keep only the statements assigning the anchored names.',
+    technique='relational symbolic execution of the real Python source / AST slices on z3 terms, z3 decides; models replayed on real estimate_lmfit_parinfo / find_islands',
+    design='4/C13'),
 }
 NA = {}
 ALL = ['C%02d' % i for i in range(1, 21)]
